@@ -187,7 +187,7 @@ def run_case(ci, timeout_ms, via_api=False):
 # dependency matrix; the method references are resolved by the real ExtRelativeName.
 B_GRAMMAR = """
 Model: classes+=Class calls+=Call;
-Class: 'class' name=ID ('extends' base=[Class])? '{' methods*=Method '}';
+Class: 'class' name=ID ('extends' bases+=[Class][','])? '{' methods*=Method '}';
 Method: 'def' name=ID;
 Call: 'call' cls=[Class] '.' method=[Method];
 """
@@ -196,25 +196,31 @@ B_CASES = [
                           "call B.run call B.go"),
     ('ext-relative-name-3', "class A { def run def stop } class B extends A { def run_fast } "
                             "class C extends B { def stop_now def go } call C.run call B.stop call C.run_fast"),
+    # a list of bases: the extension chain is complete only when every entry of the list is resolved
+    ('ext-relative-name-two-bases', "class A { def m } class B { def m def n } class C extends B, A { def x } "
+                                    "call C.m call C.n"),
 ]
 
 
 def b_keys(text):
-    keys = ['base_' + m for m in re.findall(r'class (\w+) extends', text)]
+    keys = ['base_%s_%s' % (c, b.strip()) for c, bs in re.findall(r'class (\w+) extends ([\w, ]+?) \{', text)
+            for b in bs.split(',')]
     keys += ['cls_%d' % i for i in range(len(re.findall(r'call ', text)))]
     return keys
 
 
 def b_expected(text):
     """[(owner class, method)] per call: first class on the extension chain that defines exactly that name"""
-    classes = {m.group(1): (m.group(2), re.findall(r'def (\w+)', m.group(3)))
-               for m in re.finditer(r'class (\w+)(?: extends (\w+))? \{([^}]*)\}', text)}
+    classes = {m.group(1): ([b.strip() for b in (m.group(2) or '').split(',') if b.strip()],
+                            re.findall(r'def (\w+)', m.group(3)))
+               for m in re.finditer(r'class (\w+)(?: extends ([\w, ]+?))? \{([^}]*)\}', text)}
+
+    def chain(c):
+        # the class, then the chains of its bases in the order written (depth first)
+        return [c] + [x for b in classes[c][0] for x in chain(b)]
     out = []
     for c, meth in re.findall(r'call (\w+)\.(\w+)', text):
-        cur = c
-        while cur is not None and meth not in classes[cur][1]:
-            cur = classes[cur][0]
-        out.append((cur, meth))
+        out.append((next((x for x in chain(c) if meth in classes[x][1]), None), meth))
     return out
 
 
@@ -235,7 +241,8 @@ def b_load(bi, decide):
         calls[0] += 1
         if calls[0] > 300:
             raise RuntimeError('step budget exceeded (non-termination?)')
-        key = 'base_' + obj.name if attr.name == 'base' else 'cls_%d' % [id(x) for x in get_model(obj).calls].index(id(obj))
+        key = ('base_%s_%s' % (obj.name, obj_ref.obj_name) if attr.name == 'bases'
+               else 'cls_%d' % [id(x) for x in get_model(obj).calls].index(id(obj)))
         i = keys.index(key)
         for j, kj in enumerate(keys):
             if kj not in resolved and decide(i, j):
@@ -244,8 +251,8 @@ def b_load(bi, decide):
         if res is not None:
             resolved.add(key)
         return res
-    mm.register_scope_providers({'Class.base': gated, 'Call.cls': gated,
-                                 'Call.method': P.ExtRelativeName('cls', 'methods', 'base')})
+    mm.register_scope_providers({'Class.bases': gated, 'Call.cls': gated,
+                                 'Call.method': P.ExtRelativeName('cls', 'methods', 'bases')})
     try:
         m = mm.model_from_str(text)
     except TextXSemanticError as e:
@@ -489,7 +496,7 @@ def main():
     quick = chk.tier == 'quick'
     cases = [0, 1, 2] if quick else list(range(len(CASES)))
     items = [(ci, 20000, api) for ci in cases for api in (False, True)]
-    items += [('b%d' % bi, 20000, False) for bi in (range(1) if quick else range(len(B_CASES)))]
+    items += [('b%d' % bi, 20000, False) for bi in ((0, 2) if quick else range(len(B_CASES)))]
     results = pmap(obligation, items)
     chk.cov['functions_encoded'] = src_hash(M.ReferenceResolver.resolve_one_step, M.parse_tree_to_objgraph)
     chk.cov['bounds'] = {'cases': [CASES[c][0] for c in cases], 'references': '3 (quick) / up to 4 (thorough)',
